@@ -297,3 +297,94 @@ func VerifTSConv() {
 
 // VerifSetKey lets harnesses of other packages build key frames (the field is unexported).
 func VerifSetKey(f *Frame, key bool) { f.key = key }
+
+// VerifTSBigPes: frames around the 65535-byte PES limit (concrete content, every length in
+// a window around the boundary): PES_packet_length is the exact size while it fits in 16
+// bits and 0 (unbounded, video only) beyond; the packets still carry the frame.
+func VerifTSBigPes() {
+	W := symapi.Param("W", 12)
+	hasDts := symapi.Bool("dts")
+	hl := 5
+	if hasDts {
+		hl = 10
+	}
+	// es length such that es + hl + 3 ranges over 65535-W .. 65535+W
+	n := 65535 - hl - 3 - W + symapi.IntRange("delta", 0, 2*W)
+	pay := make([]byte, n)
+	for i := range pay {
+		pay[i] = byte(i*7 + 1)
+	}
+	f := &Frame{Pid: tsVideoPid, StreamID: tsVideoAvc, Pts: 900000, Dts: 900000, Payload: pay}
+	if hasDts {
+		f.Dts = 897000
+	}
+	f.key = symapi.Bool("key")
+	rec := &verifRec{}
+	w := &Writer{w: rec}
+	symapi.Assert(w.WriteMpegtsFrame(f) == nil, "no-error")
+	out := rec.buf
+	symapi.Assert(len(out)%188 == 0, "whole-188-byte-packets")
+	// first packet: locate the PES header
+	p := out[:188]
+	start := 4
+	if p[3]>>4&3 == 3 {
+		start = 5 + int(p[4])
+	}
+	symapi.Assert(p[start] == 0 && p[start+1] == 0 && p[start+2] == 1, "pes-start-code")
+	pesLen := int(p[start+4])<<8 | int(p[start+5])
+	full := n + hl + 3
+	if full <= 0xffff {
+		symapi.Assert(pesLen == full, "pes-length-exact-while-it-fits")
+	} else {
+		symapi.Assert(pesLen == 0, "pes-length-zero-when-over-65535")
+	}
+	// total payload bytes carried
+	total := 0
+	for i := 0; i < len(out)/188; i++ {
+		q := out[i*188 : (i+1)*188]
+		s := 4
+		if q[3]>>4&3 == 3 {
+			s = 5 + int(q[4])
+		}
+		total += 188 - s
+	}
+	symapi.Assert(total == n+9+hl, "all-bytes-carried")
+	symapi.Reach("end")
+}
+
+// VerifTSKeyFrameParamSets: every IDR frame written for HLS is preceded by AUD, SPS and
+// PPS, whatever NAL units came before it (in-band parameter sets included).
+func VerifTSKeyFrameParamSets() {
+	K := symapi.Param("KSEQ", 3)
+	rec := &verifFrameRec{}
+	sps, pps := []byte{0x67, 1, 2}, []byte{0x68, 3}
+	meta := &codec.VideoMeta{Codec: "H264", Sps: sps, Pps: pps}
+	p := NewH264Packetizer(meta, rec)
+	types := []byte{7, 8, 5, 1, 6, 9}
+	for k := 0; k < K; k++ {
+		t := types[symapi.Choose("t"+string(rune('0'+k)), len(types))]
+		fr := &codec.Frame{MediaType: codec.MediaTypeVideo, Payload: []byte{0x60 | t, 0xaa}, Pts: int64(k) * 40000000, Dts: int64(k) * 40000000}
+		before := len(rec.frames)
+		symapi.Assert(p.Packetize(fr) == nil, "no-error")
+		if len(rec.frames) == before {
+			continue // the unit was not forwarded as a sample of its own
+		}
+		tf := rec.frames[len(rec.frames)-1]
+		h := tf.Header
+		if t == 5 {
+			want := []byte{0, 0, 0, 1, 9, 0xf0, 0, 0, 0, 1}
+			want = append(want, sps...)
+			want = append(want, 0, 0, 0, 1)
+			want = append(want, pps...)
+			want = append(want, 0, 0, 1)
+			symapi.Assert(len(h) == len(want), "key-frame-preceded-by-aud-sps-pps")
+			for i := 0; i < len(want) && i < len(h); i++ {
+				symapi.Assert(h[i] == want[i], "key-frame-preceded-by-aud-sps-pps")
+			}
+			symapi.Assert(tf.key, "idr-is-key")
+		} else {
+			symapi.Assert(len(h) >= 3 && h[len(h)-1] == 1 && h[len(h)-2] == 0 && h[len(h)-3] == 0, "every-unit-has-a-start-code")
+		}
+	}
+	symapi.Reach("end")
+}
